@@ -354,6 +354,21 @@ theorem inv_stopall (env : Env) (i : Nat) (st : State) (h : Inv env st) (hok : s
         · exact hs
         · exact ih _ hs hok.2
 
+/-- replacing the patcher object of a patcher that has no open patch (what `__enter__` does when it re-resolves
+    `self.target`) keeps the invariant -/
+theorem inv_setPatcher (env : Env) (st : State) (p : Nat) (pt : Patcher) (h : Inv env st)
+    (hopen : isOpen p st.stack = false) : Inv env (setPatcher st p pt) := by
+  refine ⟨h.store, ?_, h.nodup⟩
+  refine SavedOk_congr env st.patchers _ st.saved _ st.stack (fun e he => ⟨?_, rfl⟩) h.saved
+  have := (isOpen_false_iff p st.stack).1 hopen e he
+  simp [setPatcher, upd, this]
+
+theorem setPatcher_patchers (st : State) (p : Nat) (pt : Patcher) : (setPatcher st p pt).patchers p = some pt := by
+  simp [setPatcher, upd]
+
+theorem inv_bind (env : Env) (st : State) (b : Nat → Nat) (h : Inv env st) : Inv env { st with bind := b } :=
+  ⟨h.store, h.saved, h.nodup⟩
+
 theorem inv_step (env : Env) (st : State) (op : Op) (h : Inv env st)
     (hok : st.skip.isSome = true ∨ opOk env st op = true) : Inv env (step env st op).1 := by
   unfold step
@@ -381,7 +396,7 @@ theorem inv_step (env : Env) (st : State) (op : Op) (h : Inv env st)
       | some _ => exact h
       | none =>
         simp only []
-        cases hc : construct env.defaults p s with
+        cases hc : construct env.defaults p (retarget st.bind s) with
         | error x => exact h
         | ok pt =>
           refine ⟨h.store, ?_, h.nodup⟩
@@ -394,9 +409,10 @@ theorem inv_step (env : Env) (st : State) (op : Op) (h : Inv env st)
       simp only []
       cases hpt : st.patchers p with
       | none => exact inv_skip env st _ h
-      | some pt =>
+      | some pt0 =>
         simp only []
-        have := inv_enter env st pt p h hpt hok
+        have := inv_enter env (setPatcher st p (resolveP st.bind pt0)) (resolveP st.bind pt0) p
+          (inv_setPatcher env st p _ h hok) (setPatcher_patchers st p _) hok
         split
         · exact this
         · exact inv_skip env _ _ this
@@ -413,7 +429,9 @@ theorem inv_step (env : Env) (st : State) (op : Op) (h : Inv env st)
       simp only []
       cases hpt : st.patchers p with
       | none => exact h
-      | some pt => exact inv_start env st pt p h hpt hok
+      | some pt0 =>
+        exact inv_start env (setPatcher st p (resolveP st.bind pt0)) (resolveP st.bind pt0) p
+          (inv_setPatcher env st p _ h hok) (setPatcher_patchers st p _) hok
     | stop p =>
       simp only [opOk] at hok
       simp only []
@@ -425,5 +443,6 @@ theorem inv_step (env : Env) (st : State) (op : Op) (h : Inv env st)
     | stopall => exact inv_stopall env _ st h hok
     | call t args kw => exact h
     | peek => exact h
+    | rebind s t => exact ⟨h.store, h.saved, h.nodup⟩
 
 end AsynqModel.Mock
